@@ -188,7 +188,7 @@ def replay_bundle(ctx, info):
     ov, _ = overlay(ctx)
     rep = replay(ctx, ov, info["harness"], info.get("model"))
     if not (confirms({"kind": info["kind"], "label": info["label"]}, rep) or info["label"] in (rep.get("failed") or [])):
-        rep = replay(ctx, ov, info["harness"], info.get("model"), repeat=5000, target=o["label"] if o["kind"] != "panic" else "")
+        rep = replay(ctx, ov, info["harness"], info.get("model"), repeat=5000, target=info["label"] if info["kind"] != "panic" else "")
     print(json.dumps(rep))
     if confirms({"kind": info["kind"], "label": info["label"]}, rep) or info["label"] in (rep.get("failed") or []):
         print("VIOLATION property=%s replay=%s" % (ctx.prop, info.get("path", "")))
